@@ -76,6 +76,12 @@ b('decoders-preallocate-bounded', [
     ('packet.go', '	var packets []Packet\n	for len(rawData) != 0 {', '	packets := make([]Packet, 0, 4)\n	for len(rawData) != 0 {'),
 ], 'at most 31 chunk slots / 4 packet slots up front: allocation stays bounded by a small constant plus a multiple of the input')
 
+b('marshal-list-pooled-scratch', [
+    ('packet.go', 'package rtcp\n', 'package rtcp\n\nimport "sync"\n\nvar listScratch = sync.Pool{New: func() interface{} { b := make([]byte, 0, 1500); return &b }}\n'),
+    ('packet.go', '	out := make([]byte, 0)\n	for _, p := range packets {\n		data, err := p.Marshal()\n		if err != nil {\n			return nil, err\n		}\n		out = append(out, data...)\n	}\n	return out, nil',
+     '	sp := listScratch.Get().(*[]byte)\n	scratch := (*sp)[:0]\n	defer func() { *sp = scratch[:0]; listScratch.Put(sp) }()\n	for _, p := range packets {\n		data, err := p.Marshal()\n		if err != nil {\n			return nil, err\n		}\n		scratch = append(scratch, data...)\n	}\n	return append(make([]byte, 0, len(scratch)), scratch...), nil'),
+], 'a correctly used pool: the scratch buffer is private between Get and Put and the result is a fresh copy')
+
 os.makedirs(OUT, exist_ok=True)
 index = []
 for name, edits, why in B:
